@@ -55,6 +55,8 @@ type Instance struct {
 	RetType  string    // stmts/expr: result type of the wrapper
 	Wrapper  string    // name of the wrapper function
 	alias    map[*geval.SymType]*geval.SymType
+	RelFunc  string // name of the product function (relational clauses), if built
+	RelOf    string // the function it is the product of
 }
 
 // Operand is one operand-text parameter of a statement/expression generator.
@@ -98,7 +100,7 @@ func (in *Instance) comparableOpaque(t *geval.SymType) bool {
 // basicName picks the representative basic type for a symbolic basic type.
 func (in *Instance) basicName(t *geval.SymType) string {
 	if r, ok := in.basicRep[t.R()]; ok {
-		return r
+		return strings.TrimPrefix(r, "u:")
 	}
 	f := in.fact(t)
 	if f == nil || f.Basic == nil {
@@ -200,6 +202,12 @@ func (in *Instance) TypeExpr(t *geval.SymType) string {
 		return f.TypeText
 	}
 	if !t.IsView() && f.Named != geval.No {
+		if f.Kind == geval.KBasic && f.Named == geval.Unknown && strings.HasPrefix(in.basicRep[t.R()], "u:") {
+			return in.underlying(t) // variant: the predeclared type itself
+		}
+		if f.Kind == geval.KPointer && f.Named == geval.Unknown {
+			return in.underlying(t) // named pointer types are outside the grammar
+		}
 		return in.declNamed(t)
 	}
 	return in.underlying(t)
@@ -274,6 +282,10 @@ func (in *Instance) declMethods(t *geval.SymType, name string) {
 			}
 		}
 		in.funcDecl = append(in.funcDecl, fmt.Sprintf("func (%sx *%s) %s(%sy %s) %s", Mark, name, um.method, Mark, pt, um.result))
+	}
+	// hash looks for a method Hash() int32 (hasHashMethod)
+	if in.Path.Preds["hash.hasHashMethod("+t.R().Desc+")"] == geval.Yes {
+		in.funcDecl = append(in.funcDecl, fmt.Sprintf("func (%sx %s) Hash() int32", Mark, name))
 	}
 }
 
@@ -357,11 +369,25 @@ func (in *Instance) comp(c, owner *geval.SymType, what string) *geval.SymType {
 	return nt
 }
 
+// operandName: the identifier an operand hole is rendered as. Operands that
+// the contract says are always the literal identifier of the same name
+// (o-literal-operands, backed by a g-requires on the callers) keep that name.
+func (in *Instance) operandName(desc string) string {
+	for _, a := range in.Con.Attrs["o-literal-operands"] {
+		for _, w := range strings.Fields(a) {
+			if w == desc {
+				return desc
+			}
+		}
+	}
+	return Mark + desc
+}
+
 // holeText renders one hole; exprCtx is non-nil when spans are recorded.
 func (in *Instance) holeText(h *geval.Hole) string {
 	switch h.Kind {
 	case "param":
-		id := Mark + h.Desc
+		id := in.operandName(h.Desc)
 		switch h.Class {
 		case "Star":
 			return "*" + id
@@ -765,7 +791,7 @@ func (in *Instance) wrapper() (head, tail string, err error) {
 			return "", "", fmt.Errorf("o-operands: %s is not an operand hole", nt[0])
 		}
 		h := tm.Parts[0].Hole
-		op := Operand{Name: nt[0], Class: h.Class, Type: tv, GoName: Mark + h.Desc}
+		op := Operand{Name: nt[0], Class: h.Class, Type: tv, GoName: in.operandName(h.Desc)}
 		switch h.Class {
 		case "Star":
 			ps = append(ps, op.GoName+" *"+in.TypeExpr(tv))
